@@ -403,7 +403,7 @@ func main() {
 		ID:       "C04",
 		Level:    "model_checking",
 		Isolated: true,
-		Rule:     "every string up to the tier's length over a 25-byte lexer alphabet (raw program, raw template in 6 formats, attribute/script/style/code-block wrappers, partial reached by render/import/extends) and over a 33-token Go alphabet (inside {{ }}, {% %}, {%% %%}, a function body, a package-level initialiser); every truncation and every substitution by 12 special bytes at every offset of corpus files up to the tier's size; Disassemble of artefacts with n table entries of each kind for n around 127/128/255/256; and a list of ~1900 generated unusual constructs (types of unallocatable size in 18 shapes, every callee form after defer and go, 16 statements/shows/comments placed in 25 tag/attribute/script/style positions with 0-2 trailing {% end %}, all conversions between format types without a converter, declaration dependency graphs with 2^n paths, nesting depths up to 10^4 (10^5 thorough), huge constant expressions, multi-byte texts around the Disassemble(n) limit). Each case is a distinct source text; non-trivial = all (every case reaches the lexer), except substitutions that leave the byte unchanged",
+		Rule:     "every string up to the tier's length over a 25-byte lexer alphabet (raw program, raw template in 6 formats, attribute/script/style/code-block wrappers, partial reached by render/import/extends) and over a 33-token Go alphabet (inside {{ }}, {% %}, {%% %%}, a function body, a package-level initialiser); every truncation and every substitution by 12 special bytes at every offset of corpus files up to the tier's size; Disassemble of artefacts with n table entries of each kind for n around 127/128/255/256; and a list of ~1900 generated unusual constructs (types of unallocatable size in 18 shapes, every callee form after defer and go, 16 statements/shows/comments placed in 25 tag/attribute/script/style positions with 0-2 trailing {% end %}, all conversions between format types without a converter, declaration dependency graphs with 2^n paths, nesting depths up to 10^4, huge constant expressions, multi-byte texts around the Disassemble(n) limit). Each case is a distinct source text; non-trivial = all (every case reaches the lexer), except substitutions that leave the byte unchanged",
 		Assumptions: []string{
 			"inputs longer than the bound are explored only as corpus mutations",
 			"hang = no heartbeat for 30 s, re-confirmed by re-running the single input alone 3 times",
